@@ -48,6 +48,24 @@ def rule_r1(prog, res, tier):
     itf = prog.cls('spyne.interface._base:Interface')
     shared = class_set_attributes(itf.node)
     res.count('interface_set_attributes', len(shared))
+    # facets the model layer stores as sets: iterating them in an emitter
+    # is as unordered as iterating an interface set
+    model_sets = set()
+    for mn_ in ('spyne.model._base', 'spyne.model.complex',
+                'spyne.model.primitive._base'):
+        mm = prog.modules.get(mn_)
+        if mm is None:
+            continue
+        for f_ in mm.functions.values():
+            for a_ in walk_no_defs(f_.node):
+                if isinstance(a_, ast.Assign) and len(a_.targets) == 1 and \
+                        isinstance(a_.targets[0], ast.Attribute) and \
+                        unparse(a_.targets[0].value).endswith('Attributes'):
+                    from ..setflow import is_set_expr as _ise
+                    if _ise(a_.value):
+                        model_sets.add(a_.targets[0].attr)
+    res.count('model_set_facets', len(model_sets))
+    shared = set(shared) | model_sets
     if not {'imports[]', 'deps[]'} <= shared:
         raise AnalysisError('Interface set attributes', 'expected imports[] '
                             'and deps[] to be recognised as sets, got %s' %
@@ -494,6 +512,83 @@ def rule_r7(prog, res):
                         'selection')
 
 
+# ------------------------------------------------------------------- R8
+def rule_r8(prog, res):
+    res.rule('R8', 'base namespaces are recognised against the constant '
+             'table, and wsdl:message de-duplication spans the document')
+    itf = prog.cls('spyne.interface._base:Interface')
+    f = itf.methods.get('is_valid_import')
+    if f is None:
+        raise AnalysisError('Interface.is_valid_import', 'not found')
+    n = 0
+    for c in walk_no_defs(f.node):
+        if isinstance(c, ast.Compare) and isinstance(
+                c.ops[0], (ast.In, ast.NotIn)):
+            n += 1
+            cont = c.comparators[0]
+            d = dotted(cont) or unparse(cont)
+            head = d.split('.')[0]
+            target = f.module.imports.get(head, '')
+            const = head != 'self' and (target.startswith('spyne.const') or
+                                        d.isupper())
+            where = '%s:%d' % (f.module.relpath, c.lineno)
+            res.ob('R8', where, 'is_valid_import tests membership in %s (%s)'
+                   % (d, target or 'local'), 'ok' if const else 'VIOLATED')
+            if not const:
+                res.finding('R8', 'Interface.is_valid_import|table|%s' % d,
+                            where, 'is_valid_import looks the namespace up '
+                            'in %s, the per-application table that also '
+                            'holds the target namespace and every user '
+                            'namespace, instead of the constant table of '
+                            'base namespaces: imports of application '
+                            'namespaces are no longer recorded, and schemas '
+                            'refer to types of namespaces they do not '
+                            'import' % d)
+    res.floor('R8', 'membership tests in is_valid_import', n, 1)
+    # one de-duplication set for all services
+    w = prog.cls(WSDL)
+    b = w.methods.get('build_interface_document')
+    am = w.methods.get('add_messages_for_methods')
+    if b is None or am is None:
+        raise AnalysisError('Wsdl11', 'build_interface_document / '
+                            'add_messages_for_methods not found')
+    calls = [c for c in calls_in(b.node)
+             if call_name(c) == 'add_messages_for_methods']
+    res.floor('R8', 'add_messages_for_methods calls', len(calls), 1)
+    ps = [p_ for p_ in am.params() if p_ != 'self']
+    for c in calls:
+        where = '%s:%d' % (b.module.relpath, c.lineno)
+        arg = None
+        if 'messages' in ps:
+            i = ps.index('messages')
+            if i < len(c.args):
+                arg = c.args[i]
+        for k in c.keywords:
+            if k.arg == 'messages':
+                arg = k.value
+        ok = False
+        why = 'no de-duplication set is passed'
+        if isinstance(arg, ast.Name):
+            loops = [a for a in ancestors(c) if isinstance(a, (ast.For,
+                                                               ast.While))]
+            defs = [a for a in walk_no_defs(b.node) if isinstance(
+                a, ast.Assign) and any(isinstance(t, ast.Name) and
+                                       t.id == arg.id for t in a.targets)]
+            inside = [d_ for d_ in defs if any(
+                l_ in list(ancestors(d_)) for l_ in loops)]
+            ok = bool(defs) and not inside
+            why = 'the set is created inside the services loop' if inside \
+                else 'the set is never created'
+        res.ob('R8', where, 'build_interface_document: %s' % unparse(c)[:60],
+               'ok' if ok else 'VIOLATED')
+        if not ok:
+            res.finding('R8', 'Wsdl11.build_interface_document|message-set',
+                        where, 'wsdl:message de-duplication is per service, '
+                        'not per document (%s): two services sharing a '
+                        'header or fault class emit the same wsdl:message '
+                        'twice, so the QName reference is ambiguous' % why)
+
+
 def run(prog, res, tier):
     res.run_rule(rule_r1, prog, res, tier)
     res.run_rule(rule_r2, prog, res)
@@ -502,6 +597,7 @@ def run(prog, res, tier):
     res.run_rule(rule_r5, prog, res)
     res.run_rule(rule_r6, prog, res)
     res.run_rule(rule_r7, prog, res)
+    res.run_rule(rule_r8, prog, res)
 
 
 _S = 'spyne/interface/xml_schema/_base.py'
@@ -510,6 +606,20 @@ _I = 'spyne/interface/_base.py'
 _T = 'spyne/util/toposort.py'
 
 MUTANTS = [
+    Mutant('base-namespace-by-instance-table', 'R8', 'fire', _I,
+           in_func('Interface.is_valid_import', "ns in namespace.PREFMAP",
+                   "ns in self.prefmap"), 'table'),
+    Mutant('message-set-per-service', 'R8', 'fire', _W,
+           in_func('Wsdl11.build_interface_document',
+                   "self.add_messages_for_methods(s, root, messages)",
+                   "self.add_messages_for_methods(s, root, set())"),
+           'message-set'),
+    Mutant('enum-values-as-frozenset', 'R1', 'fire', 'spyne/model/_base.py',
+           in_func('ModelBase._s_customize',
+                   "            elif k == 'exc_table':\n",
+                   "            elif k == 'values':\n"
+                   "                Attributes.values = frozenset(v)\n"
+                   "            elif k == 'exc_table':\n"), 'values'),
     Mutant('root-before-schema-nodes', 'R5', 'fire', _W,
            in_func('Wsdl11.build_interface_document',
                    r"(        self\.build_schema_nodes\(\)\n)(.*?)"
